@@ -120,6 +120,18 @@ def c01reuse : Handler :=
       o == .ok ((if p.header.extension then p.header.exts.length else 0), p.header.csrc.length))
     (fun (p, _) => wfQ p)
 
+/-- `c01.inplace  <inner packet> <outer packet> <prev bytes> mode => r1 r2` : unwrapping an
+    encapsulated packet in place — the receiver decodes Marshal(outer with payload := Marshal(inner)),
+    then `recv.Unmarshal(recv.Payload)` (mode 1: `recv.Payload = buf` by hand, `recv.Unmarshal(buf)`).
+    r1 / r2 : the receiver after the first / second decode, through the public accessors. -/
+def c01inplace : Handler :=
+  mkHandler (do let i ← rdPacket; let o ← rdPacket; let prev ← Rd.bytes; let m ← Rd.nat
+                pure ({ inner := i, outer := o, prev := prev, mode := m } : Pred.C01.InplaceIn))
+    (do let a ← rdPktRes; let b ← rdPktRes; pure (a, b))
+    Pred.C01.inplaceModel
+    Pred.C01.inplacePred
+    (fun x => wfQ x.inner && (x.mode == 1 || wfQ x.outer))
+
 def handlers : List (String × Handler) :=
-  [("c01.reuse", c01reuse), ("c01.rt", c01rt), ("c04.to", c04to), ("c20.clone", c20clone)]
+  [("c01.inplace", c01inplace), ("c01.reuse", c01reuse), ("c01.rt", c01rt), ("c04.to", c04to), ("c20.clone", c20clone)]
 end Rtp.Kinds.CoreA
